@@ -30,6 +30,7 @@ RULE = (
     "unhandled placeholder, or regex position."
 )
 RULE += (" One of the placeholder names has 81 characters.")
+RULE += (" Case-sensitive field-bound values (cased, contains|cased) with placeholders are included (the backend interface has no case-sensitive form for unbound values, so keywords are not).")
 ASSUMPTIONS = [
     "vf/ref/modifiers.py defines which %name% sequences are placeholders",
     "variable values inserted into regular expressions are alphanumeric (insertion of regex "
@@ -292,7 +293,7 @@ def cases(draw):
         field = "f"
     else:
         field = "" if pos == "keyword" else "f"
-        m = draw(st.sampled_from([[], ["contains"], ["startswith"], ["endswith"], ["contains", "all"], ["all"]]))
+        m = draw(st.sampled_from([[], ["contains"], ["startswith"], ["endswith"], ["contains", "all"], ["all"]] + ([["cased"], ["contains", "cased"]] if field else [])))
         mods = (["expand"] + m) if draw(st.booleans()) else (m[:1] + ["expand"] + m[1:])
     key = field + "".join("|" + x for x in mods)
     items = []
